@@ -101,8 +101,9 @@ def run(tier, seed):
 
     # SEARCH
     cases = []
-    pats = (rng.sample(strings, 120) if tier == 'quick' else rng.sample(strings, 1500)) + ['a*b', '~*', '~~', 'b?', 'B', 'A', '*', '?', '', '~', 'a~']
-    withins = (rng.sample(strings, 40) if tier == 'quick' else rng.sample(strings, 300)) + ['abab', 'aBAb*', 'xa?b', 'a~b', 'ABC abc', '']
+    pats = (rng.sample(strings, 120) if tier == 'quick' else rng.sample(strings, 1500)) + ['a*b', '~*', '~~', 'b?', 'B', 'A', '*', '?', '', '~', 'a~',
+                                                                                              '~**c', '~**', '*~*', '**', 'a**b', '~?*', '*~?', '~~*', '~*~*', '~~~*', '***c', '~*?']
+    withins = (rng.sample(strings, 40) if tier == 'quick' else rng.sample(strings, 300)) + ['abab', 'aBAb*', 'xa?b', 'a~b', 'ABC abc', '', 'a*bc', 'a**c', '*c', 'a*b', '?*', '~*c', 'a~*']
     for f in pats:
         for t in withins:
             for s in [None] + list(range(-1, len(t) + 2)):
@@ -130,6 +131,13 @@ def run(tier, seed):
             txt = ' ' + txt + '  '
         if rng.random() < 0.1:
             txt = txt + 'e%d' % rng.randint(-5, 5)
+        cases.append(('tx value %s' % core.enc(txt), core.outcome(inst._value, txt), {'fn': 'VALUE', 'text': txt}))
+    # decimal texts with 16-17 significant digits: the double nearest to the text, nothing coarser
+    for _ in range(150 if tier == 'quick' else 3000):
+        x = rng.random() * 10 ** rng.randint(-3, 9)
+        txt = repr(x) if 'e' not in repr(x) else '%.17f' % x
+        cases.append(('tx value %s' % core.enc(txt), core.outcome(inst._value, txt), {'fn': 'VALUE', 'text': txt}))
+    for txt in ['0.30000000000000004', '1234567.1234567891', '0.1000000000000000055', '9007199254740993', '2.675', '1.0000000000000002']:
         cases.append(('tx value %s' % core.enc(txt), core.outcome(inst._value, txt), {'fn': 'VALUE', 'text': txt}))
     chk.judge('VALUE', cases)
     end_to_end(chk, tier)
